@@ -213,7 +213,7 @@ func reifyMap(opts *options, to reflect.Value, from *Config, validators []valida
 	for _, k := range sortedKeys(fields) {
 		value := fields[k]
 		opts.activeFields = newFieldSet(parentFields)
-		key := reflect.ValueOf(k)
+		key := reflect.ValueOf(k).Convert(to.Type().Key())
 
 		old := to.MapIndex(key)
 		var v reflect.Value
@@ -756,7 +756,7 @@ func doReifyPrimitive(
 		if err != nil {
 			return reflect.Value{}, raiseConversion(opts.opts, val, err, "string")
 		}
-		return reflect.ValueOf(s), nil
+		return reflect.ValueOf(s).Convert(baseType), nil
 
 	case extras[baseType] != nil:
 		v, err := extras[baseType](opts, val, baseType)
